@@ -113,18 +113,20 @@ def mstep (m : MState) (op : SOp) (cap' : Int) : M (MState × Out × List String
       let b ← if reserve > 0 then Buf.new.Reserve reserve cap' else pure Buf.new
       pure ({ c := Codec.new b max, backlog := [] }, .out .ok, [])
   | .feed bs => do
-      let b ← m.c.buf.Write bs cap'
-      pure ({ m with c := { m.c with buf := b } }, .out .ok, if b.cap ≠ m.c.buf.cap then ["write-grow"] else [])
+      let (d, ob, _) ← (DState.mk m.c m.backlog).step (.feed bs cap')
+      pure ({ c := d.c, backlog := d.backlog }, .out ob.out, if d.c.buf.cap ≠ m.c.buf.cap then ["write-grow"] else [])
   | .read bs => do
+      let (d, ob, _) ← (DState.mk m.c m.backlog).step (.read bs)
       let bl := m.backlog ++ bs
-      let (b, n) ← m.c.buf.ReadFrom bl
-      pure ({ c := { m.c with buf := b }, backlog := bl.drop n }, .out (.took n),
+      let n := bl.length - d.backlog.length
+      pure ({ c := d.c, backlog := d.backlog }, .out ob.out,
             (if n < bl.length then ["read-partial"] else []) ++ (if n = 0 ∧ bl.length > 0 then ["read-no-room"] else []))
   | .decode => do
-      let (c', o, rsv) ← m.c.Decode cap'
+      let (d, ob, rsv) ← (DState.mk m.c m.backlog).step (.decode cap')
+      let c' := d.c
       let tags := (if m.c.reset then ["lazy-consume"] else []) ++ (if c'.buf.cap ≠ m.c.buf.cap then ["reserve-grow"] else [])
         ++ (if rsv.isSome then ["needmore-payload"] else [])
-      match o with
+      match ob.out with
       | .needMore =>
           let t := if rsv.isSome then [] else if c'.buf.ri = 0 then ["needmore-header"] else ["needmore-ext-or-mask"]
           pure ({ m with c := c' }, .out .needMore, tags ++ t)
@@ -132,13 +134,13 @@ def mstep (m : MState) (op : SOp) (cap' : Int) : M (MState × Out × List String
           let neg : Bool := match PayloadLength ((c'.buf.data.drop c'.buf.si.toNat).take c'.buf.ri.toNat) with
             | .ok v => decide (v < 0) | _ => false
           pure ({ m with c := c' }, .out .tooBig, tags ++ ["toobig"] ++ (if neg then ["toobig-top-bit"] else []))
-      | .frame fb =>
-          let (f, size) ← view fb
-          let ext := match ExtendedPayloadLengthBytes fb with | .ok v => v | _ => 0
+      | .frame f size =>
+          let ext := extLen (byteAt (c'.buf.data.drop c'.buf.si.toNat) 1)
           let t := ["frame"] ++ (if ext = 2 then ["len16"] else if ext = 8 then ["len64"] else []) ++ (if f.masked then ["masked"] else [])
             ++ (if (ext = 2 ∧ f.payload.length ≤ 125) ∨ (ext = 8 ∧ f.payload.length ≤ 65535) then ["non-minimal-length"] else [])
             ++ (if (f.payload.length : Int) = c'.max then ["len=max"] else [])
           pure ({ m with c := c' }, .out (.frame f size), tags ++ t)
+      | o => pure ({ m with c := c' }, .out o, tags)
   | .encfeed f opcode => do
       let w ← Sonic.Model.WsEncode.buildFresh f.fin f.rsv1 f.rsv2 f.rsv3 (UInt8.ofNat opcode) f.masked f.mask f.payload
       let b ← m.c.buf.Write w cap'
